@@ -7,7 +7,7 @@ use std::rc::Rc;
 use std::sync::{Arc, RwLock, Weak};
 
 use arc_swap::access::{Constant, DynGuard, Map};
-use arc_swap::cache::Cache;
+use arc_swap::cache::{Cache, MapCache};
 use arc_swap::{ArcSwapAny, DefaultStrategy, Guard};
 use serde_json::{json, Value};
 
@@ -56,6 +56,17 @@ macro_rules! for_ptr {
         row!($rows, "Cache<&>", $p, $u, "default", Cache<&'static ArcSwapAny<$P, DefaultStrategy>, $P>);
         row!($rows, "Map<Arc>", $p, $u, "default", Map<Arc<ArcSwapAny<$P, DefaultStrategy>>, $P, fn(&$P) -> &$P>);
         row!($rows, "MapGuard", $p, $u, "default", <Map<Arc<ArcSwapAny<$P, DefaultStrategy>>, $P, fn(&$P) -> &$P> as arc_swap::access::Access<$P>>::Guard);
+        row!($rows, "Cache<Rc>", $p, $u, "default", Cache<Rc<ArcSwapAny<$P, DefaultStrategy>>, $P>);
+        row!($rows, "Cache<Box>", $p, $u, "default", Cache<Box<ArcSwapAny<$P, DefaultStrategy>>, $P>);
+        row!($rows, "Map<Rc>", $p, $u, "default", Map<Rc<ArcSwapAny<$P, DefaultStrategy>>, $P, fn(&$P) -> &$P>);
+        row!($rows, "MapCache<Arc>", $p, $u, "default", MapCache<Arc<ArcSwapAny<$P, DefaultStrategy>>, $P, fn(&$P) -> &$P>);
+        row!($rows, "MapCache<Rc>", $p, $u, "default", MapCache<Rc<ArcSwapAny<$P, DefaultStrategy>>, $P, fn(&$P) -> &$P>);
+        row!($rows, "Map<Arc>/F=local", $p, $u, "default", Map<Arc<ArcSwapAny<$P, DefaultStrategy>>, $P, &'static dyn for<'a> Fn(&'a $P) -> &'a $P>);
+        row!($rows, "Map<Arc>/F=shared", $p, $u, "default", Map<Arc<ArcSwapAny<$P, DefaultStrategy>>, $P, &'static (dyn for<'a> Fn(&'a $P) -> &'a $P + Sync)>);
+        row!($rows, "MapGuard/F=local", $p, $u, "default", <Map<Arc<ArcSwapAny<$P, DefaultStrategy>>, $P, &'static dyn for<'a> Fn(&'a $P) -> &'a $P> as arc_swap::access::Access<$P>>::Guard);
+        row!($rows, "MapGuard/F=shared", $p, $u, "default", <Map<Arc<ArcSwapAny<$P, DefaultStrategy>>, $P, &'static (dyn for<'a> Fn(&'a $P) -> &'a $P + Sync)> as arc_swap::access::Access<$P>>::Guard);
+        row!($rows, "MapCache<Arc>/F=local", $p, $u, "default", MapCache<Arc<ArcSwapAny<$P, DefaultStrategy>>, $P, &'static dyn for<'a> Fn(&'a $P) -> &'a $P>);
+        row!($rows, "MapCache<Arc>/F=shared", $p, $u, "default", MapCache<Arc<ArcSwapAny<$P, DefaultStrategy>>, $P, &'static (dyn for<'a> Fn(&'a $P) -> &'a $P + Sync)>);
         row!($rows, "DynGuard", $p, $u, "-", DynGuard<$P>);
         row!($rows, "Constant", $p, $u, "-", Constant<$P>);
     };
